@@ -14,8 +14,9 @@ A thread/program-counter level transition system of
 * the **dispatcher thread** (`_dispatcher_thread_function`; it is never stopped — F-8 — and a handler that answers a request blocks in
   `send_message` like everybody else).
 
-`blocking = true` is the receive loop before the repair (`wait_for(length)` blocks until the frame is complete); the code that exists is
-`blocking = false`.  A label `prx false` is a `Connection.send_data` that returns `False`.  Ghost fields (`delivered`, `fed`, `mark`,
+`Variant.current` is the code that exists; `blockingRead` is the receive loop before its repair (`wait_for(length)` blocks until the frame is
+complete, `fixed:` 725a0b2), `returningSendLoop` the send-queue loop before its repair (`resolve(False); return` leaves the rest of the queue
+behind, `fixed:` 8ac2aeb) — both kept for regression witnesses only.  A label `prx false` is a `Connection.send_data` that returns `False`.  Ghost fields (`delivered`, `fed`, `mark`,
 `rxErr`, `out`) only record what happened; no guard reads them.
 -/
 namespace SecsModel.Model.Wedge
@@ -101,6 +102,10 @@ def head (buf : Bytes) : Head :=
   if buf.length < ofBe (buf.take 4) + 4 then .incomplete else
   .frame (buf.take (ofBe (buf.take 4) + 4)) (buf.drop (ofBe (buf.take 4) + 4))
 
+/-- the code that exists, or one of the two repaired loops -/
+inductive Variant | current | blockingRead | returningSendLoop
+deriving DecidableEq, Repr
+
 def resolve (t : Tag) (s : St) : St :=
   match t with
   | .sep => { s with sepRes := true }
@@ -121,7 +126,7 @@ def stepTcp (s : St) : Option St :=
   | .running => none
   | .done => none
 
-def stepPrx (blocking : Bool) (s : St) (ok : Bool) : Option St :=
+def stepPrx (v : Variant) (s : St) (ok : Bool) : Option St :=
   match s.prx with
   | .idle => if s.rxTrig then some { s with rxTrig := false, prx := .chk } else none
   | .chk => if s.stopRx then some { s with prx := .exited, stopRx := false } else some { s with prx := .send }
@@ -130,11 +135,12 @@ def stepPrx (blocking : Bool) (s : St) (ok : Bool) : Option St :=
     | [] => some { s with prx := .recv }
     | t :: q =>
       if ok then some (resolve t { s with sendQ := q, out := s.out ++ [t] })
-      else some (resolve t { s with sendQ := q, prx := .recv })      -- `block_info.resolve(False); return`
+      else if v = .returningSendLoop then some (resolve t { s with sendQ := q, prx := .recv })   -- before the repair: `resolve(False); return`
+      else some (resolve t { s with sendQ := q })                    -- `block_info.resolve(False); break`: on to the next queued block
   | .recv =>
     match head s.buf with
     | .short => some { s with prx := .loopCheck }
-    | .incomplete => some { s with prx := if blocking then .blockedRead else .loopCheck }
+    | .incomplete => some { s with prx := if v = .blockingRead then .blockedRead else .loopCheck }
     | .frame raw rest =>
       match Block.decode raw with
       | .ok b => some { s with buf := rest, dispQ := s.dispQ + 1, dispTrig := true, delivered := s.delivered ++ [b] }
@@ -157,7 +163,7 @@ def stepDisp (s : St) (reply : Bool) : Option St :=
   | .waitReply => if s.replyRes then some { s with replyRes := false, disp := .handle } else none
   | .notStarted => none
 
-def step (blocking : Bool) (s : St) : Lbl → Option St
+def step (v : Variant) (s : St) : Lbl → Option St
   | .connect =>
     -- `_on_connected`: `connection_state.connect()`, `ProtocolDispatcher.start()` (resets the stop flags, creates both threads)
     if s.tcp = .done then
@@ -168,24 +174,19 @@ def step (blocking : Bool) (s : St) : Lbl → Option St
   | .chunk c => if s.tcp = .running then some { s with buf := s.buf ++ c, rxTrig := true, fed := s.fed ++ c } else none
   | .close => if s.tcp = .running then some { s with tcp := .sepEnq } else none
   | .tcp => stepTcp s
-  | .prx ok => stepPrx blocking s ok
+  | .prx ok => stepPrx v s ok
   | .disp reply => stepDisp s reply
 
-def run (blocking : Bool) : St → List Lbl → Option St
+def run (v : Variant) : St → List Lbl → Option St
   | s, [] => some s
-  | s, l :: ls => match step blocking s l with
-    | some s' => run blocking s' ls
+  | s, l :: ls => match step v s l with
+    | some s' => run v s' ls
     | none => none
 
 /-- steps of the endpoint's own threads (everything but the environment) -/
 def Lbl.internal : Lbl → Bool
   | .tcp | .prx _ | .disp _ => true
   | _ => false
-
-/-- not a failing `send_data` -/
-def Lbl.good : Lbl → Bool
-  | .prx false => false
-  | _ => true
 
 def TcpPc.closing : TcpPc → Bool
   | .sepEnq | .sepWait | .discon | .join | .clear => true
@@ -195,10 +196,10 @@ def TcpPc.closing : TcpPc → Bool
 def internals : List Lbl := [.tcp, .prx true, .prx false, .disp true, .disp false]
 
 /-- nothing the endpoint's own threads could do -/
-def quiescent (blocking : Bool) (s : St) : Bool := internals.all (fun l => (step blocking s l).isNone)
+def quiescent (v : Variant) (s : St) : Bool := internals.all (fun l => (step v s l).isNone)
 
 /-- **wedged**: the close sequence has begun, is not finished, and no thread of the endpoint can take a step -/
-def wedged (blocking : Bool) (s : St) : Bool := s.tcp.closing && quiescent blocking s
+def wedged (v : Variant) (s : St) : Bool := s.tcp.closing && quiescent v s
 
 /-! ## ranking function for the endpoint's own steps -/
 
